@@ -31,6 +31,9 @@ MAX_RES = "epochs"
 def curve(seed, trial_id, epoch, flavour):
     """Deterministic metric curve (integers scaled: exact floats)."""
     h = (seed * 1000003 + trial_id * 7919 + epoch * 104729) % 9973
+    if flavour == "saturated":
+        # a discrete metric that saturates: almost all reports carry one of two values (ties at every rung boundary)
+        return float(min(h % 4, 1))
     if flavour == "ties":
         return float(h % 3)
     if flavour == "trend":
